@@ -122,6 +122,7 @@ FFSM2_CONSTEXPR(14)
 typename TaskListT<TP_, NC_>::Item&
 TaskListT<TP_, NC_>::operator[] (const Index i) noexcept {
 	FFSM2_IF_ASSERT(verifyStructure());
+	FFSM2_VERIF_INDEX(i, CAPACITY);
 
 	return _items[i];
 }
@@ -133,6 +134,7 @@ FFSM2_CONSTEXPR(11)
 const typename TaskListT<TP_, NC_>::Item&
 TaskListT<TP_, NC_>::operator[] (const Index i) const noexcept {
 	FFSM2_IF_ASSERT(verifyStructure());
+	FFSM2_VERIF_INDEX(i, CAPACITY);
 
 	return _items[i];
 }
